@@ -235,7 +235,7 @@ def observe_step(sx, m, cfg):
 
 def jobs(tier):
     quick = tier == 'quick'
-    o = dict(timeout_ms=60000, budget_s=1500, max_paths=40000)
+    o = dict(timeout_ms=15000, budget_s=(300 if tier == 'quick' else 1500), max_paths=40000)
     for i, sh in enumerate(SHAPES):
         for m in [1, 2]:
             for ep, L in ([(1, 2), (2, 1)] if quick else [(1, 3), (2, 2)]):
